@@ -92,6 +92,20 @@ def biased_history(rng, al, length):
     ]
     for sh in rng.sample(shapes, rng.choice([1, 2, 2])):
         extra += sh
+    if rng.random() < 0.25:
+        # a variable pinned to a constant (it gets replaced), a contradiction somewhere else, and questions in which the
+        # pinned variable is the *value* asked about, or in which everything asked about is replaced away
+        y = al.v(1 % al.nvars)
+        m_ = (1 << al.w) - 1
+        extra += [
+            {"op": "add", "s": 0, "cons": [["eq", x, k]]},
+            {"op": "add", "s": 0, "cons": [["ugt", y, ["bvv", m_ - 1, al.w]] if rng.random() < 0.5 else ["ult", y, ["bvv", 1, al.w]]]},
+            {"op": "add", "s": 0, "cons": [["ult", y, ["bvv", 2, al.w]] if rng.random() < 0.5 else ["ne", y, ["bvv", 0, al.w]]]},
+            {"op": "solution", "s": 0, "e": k, "v": x, "extra": []},
+            {"op": "solution", "s": 0, "e": x, "v": k[1], "extra": []},
+            {"op": "solution", "s": 0, "e": ["add", x, ["bvv", 1, al.w]], "v": x, "extra": []},
+            {"op": "satisfiable", "s": 0, "extra": []},
+        ]
     if rng.random() < 0.3:
         # a serialisation round trip somewhere in the middle: the restored solver must carry on identically
         extra.append({"op": "pickle", "s": 0})
